@@ -1,4 +1,6 @@
 #include "mqtt_stub.h"
+#include <cstdio>
+#include <cstdlib>
 
 #include "ebusd/mqttclient.h"
 #include "simkernel.h"
@@ -22,6 +24,7 @@ class SimMqttClient : public MqttClient {
   bool run(bool allowReconnect, bool& connected) override {
     (void)allowReconnect;
     auto& b = mqttstub::broker();
+    if (getenv("SIM_DEBUG")) fprintf(stderr, "MQTTRUN %.3f connected=%d incoming=%zu\n", sim::now() / 1e6, connected, b.incoming.size());
     if (!connected) { connected = b.connectOk; return false; }
     // like mosquitto_loop: wait up to one second for traffic
     if (b.incoming.empty()) sim::sleepFor(200 * sim::MS);
